@@ -616,6 +616,11 @@ func main() {
 		}
 		c.SetRule("a case is a whole history on the real authenticator+authorizer over the real clusters.Manager: 2-6 cluster instances (re-created ones share a name) with 0-3 endpoints each (healthy/disabled vary), aliases moved between live clusters, delete / delete-and-stop / DeleteAll, 6-24 further ops of which ~2/3 are token or SubjectAccessReview requests drawn from 2-3 tokens and 3-6 attribute records (incl. impersonate checks) over 7 host spellings, ~15% of requests with events or whole nested requests scheduled between their steps; per-instance oracle scripts (allow/deny/no-opinion/both/error, changing over time, answers name the instance); TTLs from {0, short (real 30 ms, with real sleeps), long}. distinct = distinct canonical case; non-trivial = the same token or the same attributes were presented to at least two different cluster instances in the history")
 		if c.Replay != "" {
+			var sc SpecCase
+			if err := c.LoadReplay(&sc); err == nil && sc.Kind == "spec" {
+				runSpecCase(c, &sc, false)
+				return
+			}
 			var cs Case
 			if err := c.LoadReplay(&cs); err != nil {
 				fmt.Fprintln(os.Stderr, err)
@@ -629,6 +634,11 @@ func main() {
 		sort.Strings(files)
 		for _, f := range files {
 			b, _ := os.ReadFile(f)
+			var senv struct{ Case *SpecCase }
+			if json.Unmarshal(b, &senv) == nil && senv.Case != nil && senv.Case.Kind == "spec" {
+				runSpecCase(c, senv.Case, false)
+				continue
+			}
 			var env struct{ Case *Case }
 			if json.Unmarshal(b, &env) != nil || env.Case == nil {
 				c.Note("corpus file %s does not decode", f)
@@ -637,6 +647,7 @@ func main() {
 			runCase(c, env.Case, "corpus", false)
 		}
 		hostStream(c)
+		specStream(c)
 		n := c.Budget(700, 30000)
 		for i := 0; i < n && c.NFailures() < 5; i++ {
 			profile := "long"
